@@ -64,7 +64,7 @@ Del = fold_cat("Del", CHS, Seq(Opt(STR)), deleted_of)
 cls("Commit", fields={"branch": BR, "master_branch": Opt(BR), "bound_branch": Opt(BR), "local": BOOL, "rev_id": Opt(REV),
                       "_lossy": BOOL, "builder": ANY, "work_tree": ANY, "config_stack": ANY, "parents": Seq(REV),
                       "basis_tree": ANY, "reporter": ANY, "deleted_paths": Seq(Opt(STR)), "message": ANY, "pb": ANY,
-                      "specific_files": ANY, "exclude": ANY, "allow_pointless": BOOL, "recursive": ANY},
+                      "specific_files": Opt(Seq(STR)), "exclude": ANY, "allow_pointless": BOOL, "recursive": ANY},
     pure_methods=["_set_progress_stage", "_emit_progress", "_next_progress_entry"])
 target(P + "Commit._filter_iter_changes", params=dict(iter_changes=CHS), generator=CH, locals=dict(deleted_paths=Seq(Opt(STR))),
        loops={1: loop(r"for change in iter_changes", prefix="seen",
@@ -72,6 +72,14 @@ target(P + "Commit._filter_iter_changes", params=dict(iter_changes=CHS), generat
        ensures={"yields_exactly_the_versioned_changes_with_missing_files_as_deletions": lambda c: c.g.yielded == Out(c.old.iter_changes),
                 "records_exactly_the_missing_paths_for_unversioning": lambda c: c.self.deleted_paths == Del(c.old.iter_changes)},
        raises={"Exception": True}, canary=lambda c: Len(c.g.yielded) == 0, equivalent_mutants=LOG_EQUIV)
+
+# ---- the selection: a caller's list of paths - even an EMPTY one ("commit no files") - stays a filter; only None means "everything"
+assumed("minimum_path_selection", pure=True, no_raise=True, result=SetS(STR))
+target(P + "Commit.commit", variant="selection", block={"stmt": "If", "contains": r"self\.specific_files = sorted\(minimum_path_selection\(specific_files\)\)"}, cls="Commit",
+       params=dict(specific_files=Opt(Seq(STR))), modifies=["self.specific_files"],
+       ensures={"a_given_selection_stays_a_selection": lambda c: c.self.specific_files.is_none == c.old.specific_files.is_none},
+       raises={}, canary=lambda c: c.self.specific_files.is_none,
+       note="block: [] means no files at all, None means no filter")
 
 undecided("equality of the committed tree with basis-plus-selection (iter_changes, record_iter_changes, inventories: external)")
 undecided("the working tree reporting no changes afterwards (dirstate, external)")
